@@ -255,7 +255,11 @@ Definition step (s : state) (e : event) : option state :=
       | None =>
           let s1 := touch s t in
           if fspace (cap_of s hi) (chan_of (gt s t) hi) then
-            if sres_eqb r SOk then Some (enqueue s1 t o hi) else None
+            if sres_eqb r SOk then Some (enqueue s1 t o hi)
+            else match m, r with
+                 | MTimed, STimeout => Some s1   (* the timer may fire before the select is reached *)
+                 | _, _ => None
+                 end
           else match m with
                | MNow => if sres_eqb r SFull then Some s1 else None
                | _ => None
